@@ -515,3 +515,205 @@ def rule_ss_hsem(ctx, R):
             R.ok(inst, where)
     if n < 500:
         raise AnalysisBroken('X86-SS-HSEM: only %d cases evaluated' % n)
+
+
+# ---------------------------------------------------------------------------------------------------------------------------
+# memory-form integer instructions and ISTORE
+
+def and_(x, y):
+    """and with merging of nested constant masks: and(and(a, c1), c2) = and(a, c1 & c2)"""
+    for a_, b_ in ((x, y), (y, x)):
+        if b_.is_const():
+            at = V.single_atom(a_)
+            if at is not None and at[0] == 'and':
+                p1, p2 = V.lin_of(at[1]), V.lin_of(at[2])
+                for m_, z_ in ((p1, p2), (p2, p1)):
+                    if m_.is_const():
+                        return and_(z_, const(m_.c & b_.c))
+            if a_.is_const():
+                return const(a_.c & b_.c)
+    return V.andd(x, y)
+
+
+def ld64(addr):
+    return atom(('ld64', addr.canon()))
+
+
+class MemMachine(Machine):
+    """adds: rsi = scratchpad base, 32-bit lea / and on eax / ecx, 64-bit memory source operands, one 64-bit store"""
+
+    def __init__(self):
+        Machine.__init__(self)
+        self.r[6] = atom(('spad',))
+        self.stores = []
+
+    def addr(self, text):
+        m = re.match(r'^(?:QWORD PTR |DWORD PTR )?\[(.*)\]$', text.strip())
+        if not m:
+            return None
+        tot = const(0)
+        for sign, part in re.findall(r'([+-]?)\s*([^+-]+)', m.group(1)):
+            part = part.strip()
+            mm = re.match(r'^(\w+)\*(\d)$', part)
+            if mm and mm.group(1) in REG64:
+                v = scale(self.get(REG64[mm.group(1)]), int(mm.group(2)))
+            elif part in REG64:
+                v = self.get(REG64[part])
+            elif re.match(r'^0x[0-9a-f]+$', part) or part.isdigit():
+                v = const(int(part, 0))
+            else:
+                return None
+            tot = add(tot, neg(v) if sign == '-' else v)
+        return tot
+
+    def operand(self, s):
+        s = s.strip()
+        if s.startswith('QWORD PTR'):
+            a = self.addr(s)
+            return None if a is None else ld64(a)
+        return Machine.operand(self, s)
+
+    def step(self, mn, ops):
+        o = [x.strip() for x in ops.split(',')] if ops else []
+        if mn == 'lea' and len(o) == 2 and o[0] in REG32:
+            a = self.addr(ops.split(',', 1)[1].strip())
+            if a is None:
+                return False
+            self.r[REG32[o[0]]] = and_(a, const(0xffffffff))
+            return True
+        if mn == 'and' and len(o) == 2 and o[0] in REG32 and re.match(r'^0x[0-9a-f]+$|^\d+$', o[1]):
+            self.r[REG32[o[0]]] = and_(and_(self.get(REG32[o[0]]), const(0xffffffff)), const(int(o[1], 0) & 0xffffffff))
+            return True
+        if mn in ('mul', 'imul') and len(o) == 1 and o[0].startswith('QWORD PTR'):
+            b = self.operand(o[0])
+            if b is None:
+                return False
+            a = self.get(0)
+            self.r[2] = hi('umulh' if mn == 'mul' else 'smulh', a, b)
+            self.r[0] = mul(a, b)
+            return True
+        if mn == 'mov' and len(o) == 2 and o[0].startswith('QWORD PTR') and o[1] in REG64:
+            a = self.addr(o[0])
+            if a is None:
+                return False
+            self.stores.append((a, self.get(REG64[o[1]])))
+            return True
+        return Machine.step(self, mn, ops)
+
+
+def mem_expected(name, d, s, imm, modmem, modcond, K):
+    r = [atom(('reg', i)) for i in range(8)]
+    simm = const(imm | (0xffffffff00000000 if imm >> 31 else 0))
+    spad = atom(('spad',))
+    if name == 'ISTORE':
+        mask = (K['L1'] if modmem else K['L2']) if modcond < K['StoreL3Condition'] else K['L3']
+        a = add(spad, and_(add(r[d], simm), const(mask)))
+        return r, [(a, r[s])]
+    if s != d:
+        a = add(spad, and_(add(r[s], simm), const(K['L1'] if modmem else K['L2'])))
+    else:
+        a = add(spad, const(imm & K['L3']))
+    v = ld64(a)
+    op = {'IADD_M': lambda: add(r[d], v), 'ISUB_M': lambda: sub(r[d], v), 'IMUL_M': lambda: mul(r[d], v), 'IMULH_M': lambda: hi('umulh', r[d], v),
+          'ISMULH_M': lambda: hi('smulh', r[d], v), 'IXOR_M': lambda: xor(r[d], v)}[name]
+    r[d] = op()
+    return r, []
+
+
+_prev_atom_eval = T.atom_eval
+
+
+def _atom_eval(a, regs):
+    if a[0] == 'spad':
+        return 0x00007F0012340000
+    if a[0] == 'ld64':
+        x = T.term_eval(a[1], regs)
+        return (x * 0x9E3779B97F4A7C15 + 0x7F4A7C15) & M64      # an arbitrary fixed memory content: a function of the address
+    return _prev_atom_eval(a, regs)
+
+
+T.atom_eval = _atom_eval
+
+MEM_HANDLERS = ('IADD_M', 'ISUB_M', 'IMUL_M', 'IMULH_M', 'ISMULH_M', 'IXOR_M', 'ISTORE')
+MEM_IMMS = (0, 8, 0x7FF8, 0x3FF8, 0x4000, 0x1FFFF8, 0x200000, 0x7FFFFFFF, 0x80000000, 0xFFFFFFF8, 0xFFFFFFFF, 0x12345678)
+
+
+def rule_mem_hsem(ctx, R):
+    F, hs = jit.handlers(ctx, 'x86')
+    cls = 'randomx::JitCompilerX86'
+    R.rule('X86-MEM-HSEM', 'for the six memory-form integer instructions and ISTORE the bytes the x86-64 handler emits, disassembled and interpreted on terms, read (write) the 8 bytes at scratchpad + ((src + sext(imm32)) & mask) with the L1 / L2 mask '
+           'chosen by mod.mem (ISTORE: L3 when mod.cond >= StoreL3Condition; src == dst: the constant address imm32 & L3 mask) and combine them with dst as specification 5.2 prescribes; every dst x src, mod.mem in {0, 1, 3}, boundary immediates', min_instances=2500)
+    R.saw(config='K0', unit='src/jit_compiler_x86.cpp')
+    K = {'L1': F.const('randomx::ScratchpadL1Mask'), 'L2': F.const('randomx::ScratchpadL2Mask'), 'L3': F.const('randomx::ScratchpadL3Mask'), 'StoreL3Condition': F.const('randomx::StoreL3Condition')}
+    if None in K.values():
+        raise AnalysisBroken('X86-MEM-HSEM: scratchpad mask constants not found (%s)' % K)
+    cases = []
+    for name in MEM_HANDLERS:
+        if name not in hs:
+            raise AnalysisBroken('X86-MEM-HSEM: handler of %s not found' % name)
+        h = hs[name].f
+        R.saw(fn=h['q'])
+        for d in range(8):
+            for s in range(8):
+                for modmem in (0, 1, 3):
+                    for modcond in ((0, 13, 14, 15) if name == 'ISTORE' else (0,)):
+                        imms = MEM_IMMS if (d + s + modmem) % 3 == 0 or s == d else MEM_IMMS[5:8]
+                        for imm in imms:
+                            mod = modmem | (modcond << 4)
+                            fields = {'dst': KB.const(8, d), 'src': KB.const(8, s), 'mod': KB.const(8, mod)}
+                            ov = {'randomx::Instruction::getImm32': KB.const(32, imm), 'randomx::Instruction::getModShift': KB.const(32, (mod >> 2) & 3),
+                                  'randomx::Instruction::getModMem': KB.const(32, modmem), 'randomx::Instruction::getModCond': KB.const(32, modcond)}
+                            ex = X86Exec(F, cls, fields, ov)
+                            ex.run(h, [None, KB.const(32, 7)])
+                            cases.append((name, h, d, s, imm, modmem, modcond, tuple(ex.bytes)))
+    dis = disassemble([c[-1] for c in cases if c[-1]])
+    n = 0
+    for name, h, d, s, imm, modmem, modcond, code in cases:
+        n += 1
+        where = '%s:%d' % (h['file'], h['line'])
+        m = MemMachine()
+        tr, bad, pos = [], None, 0
+        if not code:
+            bad = 'nothing is emitted'
+        for mn, ops, nb, off in (dis.get(code, []) if code else []):
+            tr.append((mn + ' ' + ops).strip())
+            if off != pos or off + nb > len(code) or mn == '(bad)':
+                bad = 'the bytes %s do not decode to whole instructions (%s)' % (bytes(code).hex(), ' ; '.join(tr))
+                break
+            pos = off + nb
+            if not m.step(mn, ops):
+                if re.match(r'^(j\w+|call|ret|push|pop|int\d?|hlt|ud2|syscall|f\w+|v\w+|p\w+|\w+pd|\w+ps|\w+sd|\w+ss|ldmxcsr|stmxcsr)$', mn):
+                    bad = 'after `%s` the handler emits `%s %s`' % (' ; '.join(tr[:-1]), mn, ops)
+                    break
+                raise AnalysisBroken('X86-MEM-HSEM: instruction `%s %s` emitted by %s is outside the modelled subset' % (mn, ops, h['q']))
+        if bad is None and pos != len(code):
+            bad = 'the bytes %s do not decode to whole instructions' % bytes(code).hex()
+        if bad is None:
+            exp, exp_st = mem_expected(name, d, s, imm, modmem, modcond, K)
+            got = [m.get(8 + i) for i in range(8)]
+            pairs = [('r%d' % i, got[i], exp[i]) for i in range(8)]
+            if len(m.stores) != len(exp_st):
+                bad = '%d store(s) after `%s`, the specification has %d' % (len(m.stores), ' ; '.join(tr), len(exp_st))
+            else:
+                for (ga, gv), (ea, ev_) in zip(m.stores, exp_st):
+                    pairs.append(('store address', ga, ea))
+                    pairs.append(('stored value', gv, ev_))
+            for what, g_, e_ in (pairs if bad is None else ()):
+                if g_ != e_:
+                    differs = None
+                    for vals in T.VALUATIONS:
+                        a_, b_ = T.term_eval(g_.canon(), vals), T.term_eval(e_.canon(), vals)
+                        if a_ != b_:
+                            differs = (vals, a_, b_)
+                            break
+                    if differs is None:
+                        raise AnalysisBroken('X86-MEM-HSEM: %s dst=r%d src=r%d: %s is %s, the specification says %s; equivalence undecided' % (name, d, s, what, T.term_show(g_, None), T.term_show(e_, None)))
+                    bad = '%s = %s after `%s` (specification: %s); e.g. the code gives %#x, the specification %#x' % (what, T.term_show(g_, None), ' ; '.join(tr), T.term_show(e_, None), differs[1], differs[2])
+                    break
+        inst = '%s dst=r%d src=r%d mod.mem=%d%s imm32=%#x' % (name, d, s, modmem, ' mod.cond=%d' % modcond if name == 'ISTORE' else '', imm)
+        if bad:
+            R.violation(inst, where, expected='as in specification 5.2 / 5.1.? (address = (src + sext(imm32)) & mask)', found=bad)
+        else:
+            R.ok(inst, where)
+    if n < 2500:
+        raise AnalysisBroken('X86-MEM-HSEM: only %d cases evaluated' % n)
